@@ -215,3 +215,214 @@ TRANSFORMS = {'reformat': reformat_tree, 'alpha-rename': alpha_rename_tree}
 def opaque_rename_tree(root):
     """Like alpha_rename_tree, but the new names carry no trace of the old ones (zq0_rn, zq1_rn ...)."""
     return alpha_rename_tree(root, opaque=True)
+
+
+# ---------------------------------------------------------------------------------------------------------
+# statement / expression level behaviour-preserving rewrites (applied to every module of the package)
+# ---------------------------------------------------------------------------------------------------------
+def _rewrite_tree(root, transformer_factory):
+    n = 0
+    for dirpath, _, files in os.walk(os.path.join(root, 'parso')):
+        for fn in files:
+            if not fn.endswith('.py'):
+                continue
+            p = os.path.join(dirpath, fn)
+            with open(p, encoding='utf-8') as f:
+                src = f.read()
+            tree = ast.parse(src)
+            tr = transformer_factory()
+            tree = tr.visit(tree)
+            ast.fix_missing_locations(tree)
+            out = ast.unparse(tree) + '\n'
+            compile(out, p, 'exec')
+            with open(p, 'w', encoding='utf-8') as f:
+                f.write(out)
+            n += getattr(tr, 'count', 0)
+    return n
+
+
+_TERMINATORS = (ast.Return, ast.Raise, ast.Continue, ast.Break)
+
+
+def _negate(test):
+    if isinstance(test, ast.UnaryOp) and isinstance(test.op, ast.Not):
+        return test.operand
+    if isinstance(test, ast.Compare) and len(test.ops) == 1:
+        flip = {ast.Eq: ast.NotEq, ast.NotEq: ast.Eq, ast.In: ast.NotIn, ast.NotIn: ast.In,
+                ast.Is: ast.IsNot, ast.IsNot: ast.Is}
+        t = type(test.ops[0])
+        if t in flip:
+            return ast.Compare(left=test.left, ops=[flip[t]()], comparators=test.comparators)
+    return ast.UnaryOp(op=ast.Not(), operand=test)
+
+
+class _SwapBranches(ast.NodeTransformer):
+    """if c: A else: B   ->   if not c: B else: A      (only plain else branches, not elif chains)"""
+    count = 0
+
+    def visit_If(self, node):
+        self.generic_visit(node)
+        if node.orelse and not (len(node.orelse) == 1 and isinstance(node.orelse[0], ast.If)) \
+                and not (len(node.body) == 1 and isinstance(node.body[0], ast.If)):
+            self.count += 1
+            return ast.If(test=_negate(node.test), body=node.orelse, orelse=node.body)
+        return node
+
+
+class _HoistElse(ast.NodeTransformer):
+    """if c: ...; return X else: B   ->   if c: ...; return X \n B   (pylint's no-else-return)"""
+    count = 0
+
+    def _block(self, stmts):
+        out = []
+        for st in stmts:
+            if isinstance(st, ast.If) and st.orelse and st.body and isinstance(st.body[-1], _TERMINATORS) \
+                    and not (len(st.orelse) == 1 and isinstance(st.orelse[0], ast.If)):
+                self.count += 1
+                tail = st.orelse
+                st.orelse = []
+                out.append(st)
+                out.extend(tail)
+            else:
+                out.append(st)
+        return out
+
+    def generic_visit(self, node):
+        super().generic_visit(node)
+        for field in ('body', 'orelse', 'finalbody'):
+            v = getattr(node, field, None)
+            if isinstance(v, list) and v and isinstance(v[0], ast.stmt):
+                setattr(node, field, self._block(v))
+        return node
+
+
+class _NestTail(ast.NodeTransformer):
+    """if c: ...; return X \n B   ->   if c: ...; return X else: B    (the reverse of _HoistElse)"""
+    count = 0
+
+    def _block(self, stmts):
+        for i, st in enumerate(stmts):
+            if isinstance(st, ast.If) and not st.orelse and st.body and isinstance(st.body[-1], (ast.Return, ast.Raise)) \
+                    and i + 1 < len(stmts) and not any(isinstance(s, (ast.FunctionDef, ast.ClassDef)) for s in stmts[i + 1:]):
+                self.count += 1
+                st.orelse = self._block(stmts[i + 1:])
+                return stmts[:i + 1]
+        return stmts
+
+    def visit_FunctionDef(self, node):
+        self.generic_visit(node)
+        node.body = self._block(node.body)
+        return node
+
+    visit_AsyncFunctionDef = visit_FunctionDef
+
+
+class _Percent2F(ast.NodeTransformer):
+    """'a%sb%r' % (x, y)  ->  f'a{x}b{y!r}'"""
+    count = 0
+
+    def visit_BinOp(self, node):
+        self.generic_visit(node)
+        if isinstance(node.op, ast.Mod) and isinstance(node.left, ast.Constant) and isinstance(node.left.value, str):
+            import re as _re
+            fmt = node.left.value
+            parts = _re.split(r'(%[sr%])', fmt)
+            if '%' in ''.join(p for p in parts if p not in ('%s', '%r', '%%')):
+                return node
+            nspec = sum(1 for p in parts if p in ('%s', '%r'))
+            if isinstance(node.right, ast.Tuple):
+                args = list(node.right.elts)
+            elif isinstance(node.right, (ast.Name, ast.Attribute, ast.Call, ast.Subscript, ast.Constant)) and nspec == 1:
+                if isinstance(node.right, (ast.Name, ast.Attribute, ast.Call, ast.Subscript)):
+                    return node      # could be a tuple at run time
+                args = [node.right]
+            else:
+                return node
+            if len(args) != nspec or any(isinstance(a, ast.Starred) for a in args):
+                return node
+            values = []
+            it = iter(args)
+            for p in parts:
+                if p == '%s':
+                    values.append(ast.FormattedValue(value=next(it), conversion=-1, format_spec=None))
+                elif p == '%r':
+                    values.append(ast.FormattedValue(value=next(it), conversion=114, format_spec=None))
+                elif p == '%%':
+                    values.append(ast.Constant(value='%'))
+                elif p:
+                    values.append(ast.Constant(value=p))
+            self.count += 1
+            return ast.JoinedStr(values=values)
+        return node
+
+
+class _MembershipList(ast.NodeTransformer):
+    """x in ('a', 'b')  ->  x in ['a', 'b']   (constant tuples on the right of in / not in)"""
+    count = 0
+
+    def visit_Compare(self, node):
+        self.generic_visit(node)
+        if len(node.ops) == 1 and isinstance(node.ops[0], (ast.In, ast.NotIn)) and isinstance(node.comparators[0], ast.Tuple) \
+                and all(isinstance(e, ast.Constant) for e in node.comparators[0].elts):
+            self.count += 1
+            node.comparators = [ast.List(elts=node.comparators[0].elts, ctx=ast.Load())]
+        return node
+
+
+class _Yoda(ast.NodeTransformer):
+    """a.b == 'c'  ->  'c' == a.b   (== / != with a constant on the right and a name/attribute chain on the left)"""
+    count = 0
+
+    def visit_Compare(self, node):
+        self.generic_visit(node)
+        def simple(n):
+            while isinstance(n, ast.Attribute):
+                n = n.value
+            return isinstance(n, ast.Name)
+        if len(node.ops) == 1 and isinstance(node.ops[0], (ast.Eq, ast.NotEq)) \
+                and isinstance(node.comparators[0], ast.Constant) and isinstance(node.comparators[0].value, str) \
+                and simple(node.left):
+            self.count += 1
+            return ast.Compare(left=node.comparators[0], ops=node.ops, comparators=[node.left])
+        return node
+
+
+class _AugExpand(ast.NodeTransformer):
+    """n += 1  ->  n = n + 1   (name targets, numeric constants only: no aliasing question)"""
+    count = 0
+
+    def visit_AugAssign(self, node):
+        if isinstance(node.target, ast.Name) and isinstance(node.value, ast.Constant) and isinstance(node.value.value, int):
+            self.count += 1
+            return ast.Assign(targets=[ast.Name(id=node.target.id, ctx=ast.Store())],
+                              value=ast.BinOp(left=ast.Name(id=node.target.id, ctx=ast.Load()), op=node.op, right=node.value),
+                              lineno=node.lineno)
+        return node
+
+
+def swap_branches_tree(root):
+    return _rewrite_tree(root, _SwapBranches)
+
+
+def hoist_else_tree(root):
+    return _rewrite_tree(root, _HoistElse)
+
+
+def nest_tail_tree(root):
+    return _rewrite_tree(root, _NestTail)
+
+
+def percent_to_fstring_tree(root):
+    return _rewrite_tree(root, _Percent2F)
+
+
+def membership_list_tree(root):
+    return _rewrite_tree(root, _MembershipList)
+
+
+def yoda_tree(root):
+    return _rewrite_tree(root, _Yoda)
+
+
+def aug_expand_tree(root):
+    return _rewrite_tree(root, _AugExpand)
